@@ -15,9 +15,10 @@ table() {
     C17) echo "qbftsim exploration 6000 150 200000 1200";;
     C11) echo "regsim exploration 1600 150 40000 1500";;
     C12) echo "regsim fault_enumeration 320 150 8000 1500";;
+    C04) echo "ekmsim exploration 3000 150 100000 1500";;
     C16) echo "dutysim exploration 30000 150 500000 1500";;
     C14) echo "queuesim exploration 40000 120 1500000 1200";;
-    C13) echo "elsim exploration 20000 120 400000 1200";;
+    C13) echo "elsim exploration 30000 150 260000 1200";;
     *) return 1;;
   esac
 }
